@@ -62,7 +62,7 @@ def make_replacement(rng, pat, kind, reach=2.5):
     elif kind == "equal_substitution":
         # same coordinates, at least one element changed
         j = int(rng.integers(n))
-        table = {"C": "Si", "O": "S", "N": "P", "H": "F", "Zr": "Hf"}
+        table = {"C": "Si", "O": "S", "N": "P", "H": "F", "Zr": "Hf", "Cl": "C", "Br": "B", "Si": "S"}      # (the last three: a substitute that the replaced symbol begins with)
         if rng.integers(2):
             # substitutes whose symbols begin with the symbol they replace: another element at the same place all the same
             table = {"C": "Cl", "O": "Os", "N": "Ni", "H": "He", "S": "Sn", "B": "Br", "F": "Fe", "P": "Pt", "Zr": "Zn"}
